@@ -336,3 +336,259 @@ c04_r!(c04_r_rebalance_borrow_right_leaf, [3, 5, 4], 0, false);
 c04_r!(c04_r_rebalance_merge_mid_inner, [4, 3, 4], 1, true);
 c04_r!(c04_r_rebalance_merge_last_inner, [4, 4, 3], 2, true);
 c04_r!(c04_r_rebalance_merge_first_leaf, [3, 4, 4], 0, false);
+
+// =====================================================================================
+// C04.I: Node::change(Set) on a two-level tree (root with three children held by the harness): after inserting a key
+// anywhere — into a child with room, into a full child (split: the promoted separator and the new right sibling land in
+// the root), onto an existing key (overwrite) — the in-order sequence of keys is the old sequence with the key added in
+// sorted position exactly once, and every other (key, value address) pair is untouched.
+// Pre-state: any valid two-level tree of the given child sizes (all keys strictly increasing in order).
+// =====================================================================================
+pub static mut NS_WROTE: [bool; 6] = [false; 6];
+pub static mut NS_OUT: [std::mem::MaybeUninit<Node>; 6] = [std::mem::MaybeUninit::uninit(), std::mem::MaybeUninit::uninit(), std::mem::MaybeUninit::uninit(),
+	std::mem::MaybeUninit::uninit(), std::mem::MaybeUninit::uninit(), std::mem::MaybeUninit::uninit()];
+pub static mut NS_NEW: usize = 0;
+fn ns_slot(a: u64) -> usize { if a >= 300 { 3 + (a - 300) as usize } else { (a - 200) as usize } }
+
+pub fn stub_fetch_child_ns<Q: LogQuery>(n: &Node, i: usize, _values: TablesRef, _log: &Q) -> Result<Option<Node>> {
+	match n.children[i].entry_index {
+		Some(a) => {
+			let c = ns_slot(a.as_u64());
+			assert!(c < 6, "harness: node store");
+			if unsafe { NS_WROTE[c] } { Ok(Some(unsafe { NS_OUT[c].assume_init_ref().clone() })) } else { assert!(c < 3); Ok(Some(rb_child(c))) }
+		},
+		None => Ok(None),
+	}
+}
+/// Existing nodes are rewritten in place, new nodes get addresses 300, 301, ...
+pub fn stub_write_node_plan_ns(_t: TablesRef, node: Node, _w: &mut LogWriter, node_id: Option<Address>) -> Result<Option<Address>> {
+	unsafe {
+		match node_id {
+			Some(a) => { let c = ns_slot(a.as_u64()); assert!(c < 6); NS_OUT[c].as_mut_ptr().write(node); NS_WROTE[c] = true; Ok(None) },
+			None => { let c = 3 + NS_NEW; assert!(c < 6, "harness: at most three new nodes"); NS_OUT[c].as_mut_ptr().write(node); NS_WROTE[c] = true; NS_NEW += 1; Ok(Some(Address::from_u64(300 + (c - 3) as u64))) },
+		}
+	}
+}
+pub const NEW_VALUE: u64 = 7777;
+pub fn stub_create_separator(key: &[u8], _value: &[u8], _b: TablesRef, _l: &mut LogWriter, existing: Option<Address>) -> Result<Separator> {
+	let value = existing.unwrap_or(Address::from_u64(NEW_VALUE));
+	Ok(Separator { modified: Some(value) != existing, separator: Some(SeparatorInner { key: key.to_vec(), value }) })
+}
+
+fn collect_node(node: &Node, out: &mut [(u8, u64); 30], n: &mut usize) {
+	let k = node.number_separator();
+	let mut j = 0;
+	while j < 8 {
+		if j < k { let s = node.separators[j].separator.as_ref().unwrap(); assert!(s.key.len() == 1); out[*n] = (s.key[0], s.value.as_u64()); *n += 1; }
+		else { assert!(node.separators[j].separator.is_none(), "C04.I separators stay packed"); }
+		j += 1;
+	}
+}
+fn collect_tree(root: &Node, out: &mut [(u8, u64); 30], n: &mut usize) {
+	let np = root.number_separator();
+	let mut i = 0;
+	while i < 9 {
+		if i <= np {
+			let a = root.children[i].entry_index.expect("C04.I an inner node has one more child than separators").as_u64();
+			let c = ns_slot(a);
+			let node = if unsafe { NS_WROTE[c] } { unsafe { NS_OUT[c].assume_init_ref().clone() } } else { rb_child(c) };
+			assert!(node.number_separator() >= 1, "C04.I no empty leaf");
+			collect_node(&node, out, n);
+			std::mem::forget(node);
+			if i < np { let s = root.separators[i].separator.as_ref().unwrap(); out[*n] = (s.key[0], s.value.as_u64()); *n += 1; }
+		} else {
+			assert!(root.children[i].entry_index.is_none(), "C04.I children stay packed");
+		}
+		i += 1;
+	}
+}
+
+/// `key` and the two root separators are concrete (so the descent picks one concrete child), every leaf key is symbolic:
+/// the slot inside the leaf, the three split variants (insert left of / at / right of the middle) and the overwrite of an
+/// equal leaf key are decided symbolically. (With the key symbolic as well, all three subtrees are explored at once: 40 GB.)
+fn insert_case(sizes: [usize; 3], key: u8) {
+	let pk: [u8; 2] = [100, 200];
+	unsafe { RB_KEYS = kani::any(); RB_N = sizes; RB_INNER = false; NS_WROTE = [false; 6]; NS_NEW = 0; }
+	let mut root = Node { separators: Default::default(), children: Default::default(), changed: false };
+	root.separators[0] = sep(vec![pk[0]], 91);
+	root.separators[1] = sep(vec![pk[1]], 92);
+	let mut c = 0;
+	while c < 3 { root.children[c] = Child { moved: false, entry_index: Some(Address::from_u64(200 + c as u64)) }; c += 1; }
+	// the old in-order sequence, strictly increasing
+	let mut old: [(u8, u64); 30] = [(0, 0); 30];
+	let mut on = 0;
+	collect_tree(&root, &mut old, &mut on);
+	let mut j = 1;
+	while j < 30 { if j < on { kani::assume(old[j - 1].0 < old[j].0); } j += 1; }
+	let tables: [ValueTable; 0] = [];
+	let compression = crate::compress::Compress::new(crate::compress::CompressionType::NoCompression, u32::MAX);
+	let values = TablesRef { tables: &tables, compression: &compression, col: 0, preimage: false, ref_counted: false };
+	let overlays = crate::log::verif_kani::new_overlays();
+	let mut w = LogWriter::new(&overlays, 1);
+	let ops: [Operation<RcKey, RcValue>; 1] = [Operation::Set(vec![key].into(), vec![9u8].into())];
+	let mut changes: &[Operation<RcKey, RcValue>] = &ops;
+	let r = root.change(None, 1, &mut changes, values, &mut w).unwrap();
+	// new sequence: the root, and — if the root itself split — the promoted separator and the new right root half
+	let mut new: [(u8, u64); 30] = [(0, 0); 30];
+	let mut nn = 0;
+	collect_tree(&root, &mut new, &mut nn);
+	assert!(r.0.is_none(), "C04.I a root with two separators has room for one more");
+	assert!(!r.1, "C04.I inserting never leaves a node under-full");
+	// specification: sorted insert
+	let mut exists = false;
+	let mut pos = 0;
+	let mut j = 0;
+	while j < 30 { if j < on { if old[j].0 == key { exists = true; } if old[j].0 < key { pos = j + 1; } } j += 1; }
+	assert!(nn == if exists { on } else { on + 1 }, "C04.I an insert adds exactly one key; an overwrite adds none");
+	let q: usize = kani::any();
+	kani::assume(q < 30);
+	if q < nn {
+		let want = if exists { if q == pos { (key, old[q].1) } else { old[q] } }
+			else if q < pos { old[q] } else if q == pos { (key, NEW_VALUE) } else { old[q - 1] };
+		assert!(new[q] == want, "C04.I the tree holds the old keys in order with the new key at its sorted position (overwrite keeps the slot)");
+	}
+	kani::cover!(exists || unsafe { NS_NEW } >= 1 || nn == on + 1);
+	std::mem::forget(r); std::mem::forget(ops); std::mem::forget(root); std::mem::forget(w); std::mem::forget(overlays);
+}
+
+macro_rules! c04_i {
+	($name:ident, $sizes:expr, $key:expr) => {
+		crate::verif_env! {
+			#[kani::proof]
+			#[kani::unwind(32)]
+			#[kani::stub(crate::btree::node::Node::fetch_child, stub_fetch_child_ns)]
+			#[kani::stub(crate::btree::BTreeTable::write_node_plan, stub_write_node_plan_ns)]
+			#[kani::stub(crate::btree::node::Node::create_separator, stub_create_separator)]
+			fn $name() { insert_case($sizes, $key) }
+		}
+	};
+}
+c04_i!(c04_i_insert_into_full_middle_leaf, [4, 8, 5], 150);
+c04_i!(c04_i_insert_into_full_first_leaf, [8, 4, 5], 50);
+c04_i!(c04_i_insert_into_full_last_leaf, [4, 5, 8], 250);
+c04_i!(c04_i_insert_into_leaf_with_room, [4, 6, 5], 150);
+c04_i!(c04_i_overwrite_root_separator, [4, 6, 5], 100);
+
+// =====================================================================================
+// C04.D: Node::change(Dereference) and Node::remove_last on the same two-level tree: removing a key from a leaf, a key
+// that is a separator of the root (replaced by its in-order predecessor from the left child), or an absent key; the tree
+// afterwards holds exactly the other keys, in order, with their value addresses, and every leaf is at least half full
+// again (borrow / merge through the real rebalance).
+// =====================================================================================
+pub static mut RM_VALUE_CALLS: usize = 0;
+pub static mut RM_VALUE_ADDR: u64 = 0;
+pub fn stub_remove_value<K, V: AsRef<[u8]>>(_key: &TableKey, _t: TablesRef, address: Address, _c: &Operation<K, V>, _l: &mut LogWriter,
+	_s: Option<&crate::stats::ColumnStats>, _rc: bool) -> Result<(Option<crate::index::PlanOutcome>, Option<Address>)> {
+	unsafe { RM_VALUE_CALLS += 1; RM_VALUE_ADDR = address.as_u64(); }
+	Ok((None, None))
+}
+pub fn stub_remove_node_ns(_t: TablesRef, _w: &mut LogWriter, node_index: Address) -> Result<()> {
+	let c = ns_slot(node_index.as_u64());
+	assert!(c < 3, "harness: only the original children can be released");
+	unsafe { assert!(!RB_REMOVED[c], "C04.D a merged-away node is released once"); RB_REMOVED[c] = true; RB_REMOVALS += 1; }
+	Ok(())
+}
+
+fn two_level_tree(sizes: [usize; 3]) -> (Node, [(u8, u64); 30], usize) {
+	let pk: [u8; 2] = [100, 200]; // concrete root separators: the descent is concrete, the leaves are symbolic (see insert_case)
+	unsafe { RB_KEYS = kani::any(); RB_N = sizes; RB_INNER = false; NS_WROTE = [false; 6]; NS_NEW = 0; RB_REMOVED = [false; 3]; RB_REMOVALS = 0; RM_VALUE_CALLS = 0; }
+	let mut root = Node { separators: Default::default(), children: Default::default(), changed: false };
+	root.separators[0] = sep(vec![pk[0]], 91);
+	root.separators[1] = sep(vec![pk[1]], 92);
+	let mut c = 0;
+	while c < 3 { root.children[c] = Child { moved: false, entry_index: Some(Address::from_u64(200 + c as u64)) }; c += 1; }
+	let mut old: [(u8, u64); 30] = [(0, 0); 30];
+	let mut on = 0;
+	collect_tree(&root, &mut old, &mut on);
+	let mut j = 1;
+	while j < 30 { if j < on { kani::assume(old[j - 1].0 < old[j].0); } j += 1; }
+	(root, old, on)
+}
+
+fn check_removed(root: &Node, old: &[(u8, u64); 30], on: usize, gone: usize) {
+	let mut new: [(u8, u64); 30] = [(0, 0); 30];
+	let mut nn = 0;
+	collect_tree(root, &mut new, &mut nn);
+	assert!(nn == if gone < on { on - 1 } else { on }, "C04.D a removal takes out exactly one key; removing an absent key none");
+	let q: usize = kani::any();
+	kani::assume(q < 30);
+	if q < nn {
+		let want = if q < gone { old[q] } else { old[q + 1] };
+		assert!(new[q] == want, "C04.D every other key stays, in order, with its value address");
+	}
+	// balance: every remaining leaf holds at least ORDER/2 separators
+	let np = root.number_separator();
+	let mut i = 0;
+	while i < 3 {
+		if i <= np {
+			let c = ns_slot(root.children[i].entry_index.unwrap().as_u64());
+			assert!(!unsafe { RB_REMOVED[c] }, "C04.D the root never keeps a released leaf");
+			let node = if unsafe { NS_WROTE[c] } { unsafe { NS_OUT[c].assume_init_ref().clone() } } else { rb_child(c) };
+			assert!(node.number_separator() >= 4, "C04.D leaves are at least half full after a removal");
+			std::mem::forget(node);
+		}
+		i += 1;
+	}
+	assert!(unsafe { RB_REMOVALS } == 2 - np, "C04.D a leaf is released exactly when two leaves were merged");
+}
+
+fn remove_case2(sizes: [usize; 3], key: u8) {
+	let (mut root, old, on) = two_level_tree(sizes);
+	let tables: [ValueTable; 0] = [];
+	let compression = crate::compress::Compress::new(crate::compress::CompressionType::NoCompression, u32::MAX);
+	let values = TablesRef { tables: &tables, compression: &compression, col: 0, preimage: false, ref_counted: false };
+	let overlays = crate::log::verif_kani::new_overlays();
+	let mut w = LogWriter::new(&overlays, 1);
+	let ops: [Operation<RcKey, RcValue>; 1] = [Operation::Dereference(vec![key].into())];
+	let mut changes: &[Operation<RcKey, RcValue>] = &ops;
+	let r = root.change(None, 1, &mut changes, values, &mut w).unwrap();
+	assert!(r.0.is_none(), "C04.D a removal never splits");
+	let mut gone = 30;
+	let mut j = 0;
+	while j < 30 { if j < on && old[j].0 == key { gone = j; } j += 1; }
+	if gone < on {
+		assert!(unsafe { RM_VALUE_CALLS } == 1 && unsafe { RM_VALUE_ADDR } == old[gone].1, "C04.D the removed key's own value is released, once");
+	} else {
+		assert!(unsafe { RM_VALUE_CALLS } == 0, "C04.D removing an absent key releases nothing");
+	}
+	check_removed(&root, &old, on, gone);
+	kani::cover!(gone < on || key != 100);
+	std::mem::forget(r); std::mem::forget(ops); std::mem::forget(root); std::mem::forget(w); std::mem::forget(overlays);
+}
+
+fn remove_last_case(sizes: [usize; 3]) {
+	let (mut root, old, on) = two_level_tree(sizes);
+	let tables: [ValueTable; 0] = [];
+	let compression = crate::compress::Compress::new(crate::compress::CompressionType::NoCompression, u32::MAX);
+	let values = TablesRef { tables: &tables, compression: &compression, col: 0, preimage: false, ref_counted: false };
+	let overlays = crate::log::verif_kani::new_overlays();
+	let mut w = LogWriter::new(&overlays, 1);
+	let (_need, got) = root.remove_last(1, values, &mut w).unwrap();
+	let s = got.expect("C04.D remove_last of a non-empty subtree yields its largest key").separator.expect("C04.D the yielded separator is filled");
+	assert!(s.key.len() == 1 && (s.key[0], s.value.as_u64()) == old[on - 1], "C04.D remove_last yields the in-order last (key, value)");
+	check_removed(&root, &old, on, on - 1);
+	kani::cover!(root.number_separator() == 1);
+	std::mem::forget(s); std::mem::forget(root); std::mem::forget(w); std::mem::forget(overlays);
+}
+
+macro_rules! c04_d {
+	($name:ident, $f:ident ( $($a:expr),* )) => {
+		crate::verif_env! {
+			#[kani::proof]
+			#[kani::unwind(32)]
+			#[kani::stub(crate::btree::node::Node::fetch_child, stub_fetch_child_ns)]
+			#[kani::stub(crate::btree::BTreeTable::write_node_plan, stub_write_node_plan_ns)]
+			#[kani::stub(crate::btree::BTreeTable::write_plan_remove_node, stub_remove_node_ns)]
+			#[kani::stub(crate::column::Column::write_existing_value_plan, stub_remove_value)]
+			fn $name() { $f($($a),*) }
+		}
+	};
+}
+c04_d!(c04_d_remove_from_minimal_middle_leaf, remove_case2([4, 4, 4], 150));
+c04_d!(c04_d_remove_from_minimal_first_leaf, remove_case2([4, 5, 4], 50));
+c04_d!(c04_d_remove_from_minimal_last_leaf, remove_case2([6, 4, 4], 250));
+c04_d!(c04_d_remove_from_leaf_with_spare, remove_case2([4, 6, 4], 150));
+c04_d!(c04_d_remove_root_separator_minimal, remove_case2([4, 4, 4], 100));
+c04_d!(c04_d_remove_root_separator_spare, remove_case2([6, 4, 4], 200));
+c04_d!(c04_d_remove_last_minimal_leaves, remove_last_case([4, 4, 4]));
+c04_d!(c04_d_remove_last_borrow, remove_last_case([4, 6, 4]));
